@@ -14,17 +14,45 @@ from verifkit import Infra, read_ndjson, write_ndjson
 
 KEYS = ["stor", "bal", "alive", "logs", "masters", "xfers", "flags", "frames", "ncreate"]
 KNOWN_SD = "selfdestruct-immediate-delete"
+_built = {}
+
+
+def build(ctx, name):
+    """ctx.build once per run and binary."""
+    key = (id(ctx), name)
+    if key not in _built:
+        _built[key] = ctx.build(name)
+    return _built[key]
 
 
 # ------------------------------------------------------------------------------------------------------------ words
 def selfcheck_words(ctx):
-    """The limb library must agree with TLC's own arithmetic / algebraic identities: a failure is a spec defect."""
-    ctx.tlc_must_hold("exec", "MC_EvmWord", cfg="MC_EvmWord_quick.cfg" if ctx.quick else "MC_EvmWord_thorough.cfg",
-                      workers=4, timeout=900 if ctx.quick else 2400, label="limb library self-check")
+    """The limb library must agree with TLC's own arithmetic / algebraic identities: a failure is a spec defect.
+    Independent of the code under test, so it runs in a background thread; join with the returned function."""
+    box = {}
+
+    def work():
+        try:
+            box["r"] = ctx.tlc_must_hold("exec", "MC_EvmWord", cfg="MC_EvmWord_quick.cfg" if ctx.quick else "MC_EvmWord_thorough.cfg",
+                                         workers=2 if ctx.quick else 4, timeout=900 if ctx.quick else 3000, label="limb library self-check", count=False)
+        except BaseException as e:            # re-raised in the main thread
+            box["e"] = e
+
+    import threading
+    t = threading.Thread(target=work)
+    t.start()
+
+    def join():
+        t.join()
+        if "e" in box:
+            raise box["e"]
+        ctx.cov["states"] += box["r"].distinct
+        ctx.cov["transitions"] += box["r"].generated
+    return join
 
 
 def record_words(ctx, n, nexp, label, seed_offset=0):
-    binp = ctx.build("evmwords")
+    binp = build(ctx, "evmwords")
     out = ctx.tmp("words-" + label)
     seed = ctx.seed * 1000 + seed_offset
     rc, o = ctx.run([binp, "-out", out, "-seed", str(seed), "-n", str(n), "-exp", str(nexp)], timeout=600)
@@ -175,7 +203,7 @@ def has_nested(obs):
 
 def replay_programs(ctx, raw_behs, label, stats):
     """raw_behs: JSON strings {"prog":..,"exp":..,["thor":..]}. Runs them on the real EVM and compares."""
-    binp = ctx.build("evmframes")
+    binp = build(ctx, "evmframes")
     d = ctx.tmp("frames-" + label)
     inp, outp = os.path.join(d, "behs.ndjson"), os.path.join(d, "obs.ndjson")
     with open(inp, "w") as f:
@@ -267,7 +295,7 @@ def frames_binding_demo(ctx, raw_behs):
     b2 = json.loads(json.dumps(b))
     b2["exp"]["flags"][0][3] = 1 - b2["exp"]["flags"][0][3]
     st = {"replayed": 0, "conform": 0, "nested": 0, "known_sd": 0, "with_failed_frame": 0, "with_static_frame": 0}
-    binp = ctx.build("evmframes")
+    binp = build(ctx, "evmframes")
     d = ctx.tmp("frames-demo")
     inp, outp = os.path.join(d, "behs.ndjson"), os.path.join(d, "obs.ndjson")
     with open(inp, "w") as f:
@@ -294,7 +322,7 @@ def replay_artefact(ctx, path):
         ctx.cov["rule"] = "replay of one saved program"
         ctx.sample(art["behaviour"]["prog"])
     elif art.get("kind") == "words":
-        binp = ctx.build("evmwords")
+        binp = build(ctx, "evmwords")
         d = ctx.tmp("words-replay")
         vecs = os.path.join(d, "vectors.ndjson")
         write_ndjson(vecs, [{"op": e["op"], "a": e["a"], "b": e["b"], "c": e["c"]} for e in art["trace"]])
